@@ -862,5 +862,15 @@ V('C17', 'schema-values-described', 'silent', '', 'patch value tuples get a desc
   ('src/pyhf/schemas/1.0.0/defs.json', '                                "items": {\n                                    "anyOf": [{"type": "number"}, {"type": "string"}]\n                                }\n', '                                "items": {\n                                    "anyOf": [{"type": "number"}, {"type": "string"}]\n                                },\n                                "description": "coordinates of the signal point"\n'))
 V('C17', 'schema-values-nonnegative', 'fire', 'C17.R8', 'patch value coordinates must be non-negative',
   ('src/pyhf/schemas/1.0.0/defs.json', '                                "items": {\n                                    "anyOf": [{"type": "number"}, {"type": "string"}]\n                                }\n', '                                "items": {\n                                    "anyOf": [{"type": "number", "minimum": 0}, {"type": "string"}]\n                                }\n'))
+V('C11', 'optimizer-equality-by-two-settings-and-kept-when-unchanged', 'fire', 'C11.R7', 'optimizers equal when maxiter and verbose agree AND set_backend keeps the optimizer in use when it compares equal',
+  ('src/pyhf/optimize/mixins.py', '    def _internal_minimize(\n        self,\n        func,\n', '    def __eq__(self, other):\n        if type(self) is not type(other):\n            return NotImplemented\n        return all(getattr(self, setting) == getattr(other, setting) for setting in OptimizerMixin.__slots__)\n\n    __hash__ = object.__hash__\n\n    def _internal_minimize(\n        self,\n        func,\n'),
+  ('src/pyhf/tensor/manager.py', "    # set new backend\n    this.state['current'] = (new_backend, new_optimizer)\n", "    # set new backend\n    if not optimizer_changed:\n        new_optimizer = this.state['current'][1]\n    this.state['current'] = (new_backend, new_optimizer)\n"))
+V('C19', 'optimizer-equality-by-two-settings-and-kept-when-unchanged', 'fire', 'C19.R5', 'optimizers equal when maxiter and verbose agree AND set_backend keeps the optimizer in use when it compares equal',
+  ('src/pyhf/optimize/mixins.py', '    def _internal_minimize(\n        self,\n        func,\n', '    def __eq__(self, other):\n        if type(self) is not type(other):\n            return NotImplemented\n        return all(getattr(self, setting) == getattr(other, setting) for setting in OptimizerMixin.__slots__)\n\n    __hash__ = object.__hash__\n\n    def _internal_minimize(\n        self,\n        func,\n'),
+  ('src/pyhf/tensor/manager.py', "    # set new backend\n    this.state['current'] = (new_backend, new_optimizer)\n", "    # set new backend\n    if not optimizer_changed:\n        new_optimizer = this.state['current'][1]\n    this.state['current'] = (new_backend, new_optimizer)\n"))
+V('C11', 'optimizer-kept-when-unchanged-only', 'silent', '', 'set_backend keeps the optimizer in use when it compares equal (optimizers compare by identity)',
+  ('src/pyhf/tensor/manager.py', "    # set new backend\n    this.state['current'] = (new_backend, new_optimizer)\n", "    # set new backend\n    if not optimizer_changed:\n        new_optimizer = this.state['current'][1]\n    this.state['current'] = (new_backend, new_optimizer)\n"))
+V('C11', 'optimizer-equality-only', 'silent', '', 'optimizers equal when maxiter and verbose agree (set_backend installs the new object regardless)',
+  ('src/pyhf/optimize/mixins.py', '    def _internal_minimize(\n        self,\n        func,\n', '    def __eq__(self, other):\n        if type(self) is not type(other):\n            return NotImplemented\n        return all(getattr(self, setting) == getattr(other, setting) for setting in OptimizerMixin.__slots__)\n\n    __hash__ = object.__hash__\n\n    def _internal_minimize(\n        self,\n        func,\n'))
 V("C13", "code4-exponent-mask-strict", "fire", "C13.R3", "code 4 takes exponent 1 (a constant) exactly at |alpha| = alpha0",
   ("src/pyhf/interpolators/code4.py", "            exponents >= self.__alpha0, exponents, self.ones", "            exponents > self.__alpha0, exponents, self.ones"))
